@@ -116,6 +116,56 @@ func VH_C12_repair_safety() {
 	vObserve("nout", len(out))
 }
 
+//verif:harness prop=C12 quick=1 thorough=2 timeout=1500
+//verif:bounds chains of three fragments of one class (key gene, equal qualifiers): two ranges and one 2-part join of ranges in any part order (so the join may sort before the fragments it continues), all on the forward strand (thorough shard 2: all complemented), coordinates and partial flags symbolic: Repair does not panic, is idempotent (one call reaches the fixed point), merges only abutting 3'-partial/5'-partial ends and keeps the residues covered by the class
+func VH_C12_repair_chain() {
+	L := vIntIn("L", 1, vCap)
+	rev := vShard(1+vTier()) == 1
+	mk := func(name string, join bool) Location {
+		var loc Location
+		if join {
+			loc = Join(vGenParts(name, 2, L, 1)...)
+		} else {
+			loc = vGenAtom(name, L, 1)
+		}
+		if rev {
+			loc = loc.Complement()
+		}
+		return loc
+	}
+	ff := []Feature{{"gene", mk("f0", false), vFeatTag(0)}, {"gene", mk("f1", false), vFeatTag(0)}, {"gene", mk("f2", true), vFeatTag(0)}}
+	var out, out2 []Feature
+	p := vPanics(func() { out = Repair(ff) })
+	vAssert("no-panic", !p)
+	if p {
+		return
+	}
+	vCover("repaired")
+	p2 := vPanics(func() { out2 = Repair(out) })
+	vAssert("no-panic-second", !p2)
+	if p2 {
+		return
+	}
+	vAssert("idempotent", vSameTable(out, out2))
+	anyPair := false
+	for a := range ff {
+		for b := range ff {
+			if a != b {
+				anyPair = vOr(anyPair, vAbutPair(ff[a], ff[b]))
+			}
+		}
+	}
+	if len(out) != len(ff) {
+		vCover("merged")
+		vAssert("merge-needs-abutting-pair", anyPair)
+	}
+	x := vIntIn("x", 0, vCap)
+	vAssume(x < L)
+	vAssert("class-coverage-fwd", vClassCov(out, "gene", x, false) == vClassCov(ff, "gene", x, false))
+	vAssert("class-coverage-rev", vClassCov(out, "gene", x, true) == vClassCov(ff, "gene", x, true))
+	vObserve("nout", len(out))
+}
+
 //verif:harness prop=C12 quick=3 thorough=6 timeout=1500
 //verif:bounds restoration: a sequence of length 6 (quick) / 8 (thorough) with a source feature and one (quick) / two (thorough) class-unique features (ranged either strand, 2-part join with ascending disjoint parts) with symbolic coordinates and partial flags, cut at 1 (quick) / 1..2 (thorough) symbolic positions, pieces concatenated, table repaired
 func VH_C12_repair_roundtrip() {
